@@ -23,7 +23,11 @@ RULE = ("case = an op sequence run on one real store directory (2 datasets): ass
         "batches with an empty URI, re-stored entities with new reference targets), NewContextualStore, restart (Close+NewStore) and "
         "crash (directory image taken while open) at random positions, dumps of both namespace maps and both id indexes; "
         "a case is non-trivial when it contains a restart/crash or a contextual-store write or a context read after an assertion; "
-        "distinct = distinct op sequences; thorough adds a >1000-id batch (lease renewal) and the concurrent workload")
+        "distinct = distinct op sequences; every tier adds bounded concurrent bursts on the namespace manager in a child process "
+        "(k callers introducing the same new namespace while another request stream introduces others, then k different new "
+        "namespaces at once; per round: same CURIE for all, live maps mutually inverse, every handed-out pair in the persisted "
+        "state object; Close+NewStore every 6th round: all pairs still there, next namespace gets a fresh prefix); "
+        "thorough adds a >1000-id batch (lease renewal) and the concurrent reader/asserter workload")
 TRUSTED = [
     "Badger: a committed Txn is atomic and durable, Txn.Get sees the transaction's own pending writes plus the committed state, "
     "Get/Commit on a discarded Txn fail as in badger v4.2.0 txn.go, Sequence behaves as db.go (lease persisted before first use, "
@@ -189,9 +193,15 @@ def conc_case(readers, asserters, iters):
     return {"dss": DSS, "ops": [], "conc": {"readers": readers, "asserters": asserters, "iters": iters}}
 
 
+def burst_case(k, rounds):
+    return {"dss": DSS, "ops": [], "conc": {"readers": 0, "asserters": 0, "iters": 0, "k": k, "rounds": rounds}}
+
+
 def gen(rng, tier):
     out = []
     if tier == "quick":
+        out.append(burst_case(8, 24))
+        out.append(burst_case(16, 12))
         for i in range(72):
             out.append(rand_case(rng, rng.range(8, 22), ["mix", "ns", "ids"][i % 3]))
         return out
@@ -202,6 +212,9 @@ def gen(rng, tier):
     for i in range(240):
         out.append(rand_case(rng, rng.range(8, 40), ["mix", "ns", "ids", "ids"][i % 4]))
     out.append(big_case(1100))
+    out.append(burst_case(8, 60))
+    out.append(burst_case(16, 30))
+    out.append(burst_case(4, 60))
     out.append(conc_case(4, 4, 300))
     out.append(conc_case(2, 6, 200))
     return out
@@ -219,7 +232,7 @@ def nsnum(p):
 
 
 OUTCOME = {"ok": "OcOk", "empty": "OcErrEmpty", "discarded": "OcErrDiscarded", "panic": "OcPanic"}
-CONC = {"": 0, "survived": 1, "died-map": 2, "died-other": 3, "hang": 4}
+CONC = {"": 0, "survived": 1, "died-map": 2, "died-other": 3, "hang": 4, "inconsistent": 5}
 
 
 def ss(pairs):
@@ -344,7 +357,7 @@ def classify(c, o):
 def tags(c, o):
     t = []
     if c.get("conc"):
-        return ["concurrent=" + (o.get("conc") or "?")]
+        return [("burst=" if c["conc"].get("rounds") else "concurrent=") + (o.get("conc") or "?")]
     kinds = [op["op"] for op in c["ops"]]
     for k in ("restart", "ctxtxn", "read", "batch", "compact", "nsid"):
         if k in kinds:
